@@ -85,7 +85,10 @@ MEMBERS = {
     'initsub': ["def __init_subclass__(cls, **kw):", "    super().__init_subclass__(**kw)", "    cls.sub_seen = True"],
     'slots': ["__slots__ = ('sl',)"],
     'desc': ["dd = Desc()"],
-    'private': ["__pv = 5", "def getpv(self):", "    return self.__pv"],
+    'private': ["__pv = 5", "def getpv(self):", "    return self.__pv, self.__pm(2), self.__st.digits[:2], self.__sep, self.__Nested().get()",
+                "def __pm(self, __arg, *, __kw=1):", "    return [__arg + __kw + __q for __q in range(2)]",
+                "import string as __st", "from os import sep as __sep",
+                "class __Nested:", "    __z = 'nested-private'", "    def get(self):", "        return self.__z, type(self).__name__"],
     'doc': ["'docstring'", "w = 1"],
     'dunder': ["def __repr__(self):", "    return 'K()'", "def __eq__(self, o):", "    return True", "__hash__ = None"],
     'classvar_in_method_default': ["dv = 7", "def md(self, a=dv):", "    return a"],
